@@ -457,3 +457,229 @@ func E1ContextSetters(c *core.Ctx, r *core.Report) {
 	}
 	r.Floor("E1.ctx-setters", 18)
 }
+
+// E1SharedFont: layout and text rendering do not write the loaded font they share.
+func E1SharedFont(c *core.Ctx, r *core.Report) {
+	r.Rule("E1.shared-font", "the PDF font writer (writeFont, getFont) and the FontFace queries that do not go through the shaper (Metrics, LineHeight, toPath, textWidth, heights, Decorate) write no memory reachable from the font (face) they are given: a loaded font is shared between goroutines and canvases. Shaping (FontFace.Glyphs, NewTextLine, RichText.ToText) runs through go-text/harfbuzz with unresolved interface calls and is not decided")
+	a := newEffects(c, r)
+	type root struct {
+		f    *ssa.Function
+		only []string
+	}
+	roots := []root{
+		{c.SSAFunc("renderers/pdf", "pdfWriter.writeFont"), []string{"font"}},
+		{c.SSAFunc("renderers/pdf", "pdfWriter.getFont"), []string{"font"}},
+		{c.SSAFunc("", "FontFace.Metrics"), []string{"face"}},
+		{c.SSAFunc("", "FontFace.toPath"), []string{"face"}},
+		{c.SSAFunc("", "FontFace.textWidth"), []string{"face"}},
+		{c.SSAFunc("", "FontFace.heights"), []string{"face"}},
+		{c.SSAFunc("", "FontFace.LineHeight"), []string{"face"}},
+		{c.SSAFunc("", "FontFace.Decorate"), []string{"face"}},
+	}
+	var fs []*ssa.Function
+	for _, rt := range roots {
+		fs = append(fs, rt.f)
+	}
+	a.solve(fs)
+	a.debugSummary()
+	for _, rt := range roots {
+		s := a.sums[rt.f]
+		if s == nil {
+			r.Fail("E1.shared-font", core.ShortFunc(rt.f)+"|summary", a.pos(rt.f.Pos()), "no summary computed")
+			continue
+		}
+		r.Func(core.ShortFunc(rt.f))
+		for i, prm := range rt.f.Params {
+			if prm.Name() != rt.only[0] {
+				continue
+			}
+			role := fmt.Sprintf("argument %d", i)
+			if i == 0 && rt.f.Signature.Recv() != nil {
+				role = "receiver"
+			}
+			key := core.ShortFunc(rt.f) + "|" + role
+			var ws []string
+			for lvl := 0; lvl <= maxLevel; lvl++ {
+				hops := s.WS[wkey{i, lvl}]
+				var hs []string
+				for h := range hops {
+					hs = append(hs, h)
+				}
+				sort.Strings(hs)
+				for _, h := range hs {
+					if strings.Contains(h, "github.com/tdewolff/font.") {
+						continue // decided per call site by E1.font-lib
+					}
+					ws = append(ws, fmt.Sprintf("level %d: %s", lvl, hops[h]))
+				}
+			}
+			if len(ws) == 0 {
+				r.OK("E1.shared-font", key, a.pos(rt.f.Pos()), "no write of its own to memory reachable from the font (calls into the font library are decided by E1.font-lib)")
+			} else {
+				r.Fail("E1.shared-font", key, a.pos(rt.f.Pos()), fmt.Sprintf("%s may write memory reachable from its shared font `%s`", core.ShortFunc(rt.f), prm.Name()), ws...)
+			}
+		}
+	}
+	r.Count("E1.shared-font-roots", len(roots))
+	r.Floor("E1.shared-font-roots", 8)
+	for k := range a.extPure {
+		r.Assumed[k] = true
+	}
+}
+
+// E1FontLibraryCalls: canvas calls into the font library only in ways that leave the loaded font
+// untouched. A loaded *font.SFNT is reachable only through the caller's parameters (a FontFace, a
+// Font, a renderer's font map), so the obligation is per (caller, font-library callee): the call
+// writes no memory reachable from any of the caller's parameters.
+func E1FontLibraryCalls(c *core.Ctx, r *core.Report) {
+	const fontPkg = "github.com/tdewolff/font"
+	r.Rule("E1.font-lib", "for every function of the module that calls a function of "+fontPkg+", the call writes no memory reachable from the caller's receiver or arguments: loaded fonts are shared between canvases and goroutines, only fresh copies (Subset results, local copies) may be written")
+	a := newEffects(c, r)
+	type pair struct {
+		f      *ssa.Function
+		callee string
+	}
+	var roots []*ssa.Function
+	pairs := map[pair]bool{}
+	for _, f := range moduleFunctions(c) {
+		if f.Blocks == nil || strings.HasSuffix(c.SSA().Fset.Position(f.Pos()).Filename, "_test.go") {
+			continue
+		}
+		has := false
+		for _, b := range f.Blocks {
+			for _, ins := range b.Instrs {
+				ci, ok := ins.(ssa.CallInstruction)
+				if !ok {
+					continue
+				}
+				cal := ci.Common().StaticCallee()
+				if cal == nil || cal.Pkg == nil || cal.Pkg.Pkg.Path() != fontPkg {
+					continue
+				}
+				pairs[pair{f, core.ShortFunc(cal)}] = true
+				has = true
+			}
+		}
+		if has {
+			roots = append(roots, f)
+		}
+	}
+	a.solve(roots)
+	a.debugSummary()
+	var ps []pair
+	for p := range pairs {
+		ps = append(ps, p)
+	}
+	sort.Slice(ps, func(i, j int) bool {
+		if ps[i].f.String() != ps[j].f.String() {
+			return ps[i].f.String() < ps[j].f.String()
+		}
+		return ps[i].callee < ps[j].callee
+	})
+	for _, p := range ps {
+		s := a.sums[p.f]
+		key := core.ShortFunc(p.f) + "|" + p.callee
+		if s == nil {
+			r.Fail("E1.font-lib", key+"|summary", a.pos(p.f.Pos()), "no summary computed")
+			continue
+		}
+		var ws []string
+		for i, prm := range p.f.Params {
+			if !reachesNamed(prm.Type(), fontPkg, "SFNT") {
+				continue // the parameter cannot hold a loaded font (an output path, a byte slice, …)
+			}
+			for lvl := 0; lvl <= maxLevel; lvl++ {
+				if w := s.WS[wkey{i, lvl}][p.callee]; w != "" {
+					ws = append(ws, fmt.Sprintf("parameter %d level %d: %s", i, lvl, w))
+				}
+			}
+		}
+		if len(ws) == 0 {
+			r.OK("E1.font-lib", key, a.pos(p.f.Pos()), "the call writes nothing reachable from the caller's parameters")
+		} else {
+			r.Fail("E1.font-lib", key, a.pos(p.f.Pos()), fmt.Sprintf("%s calls %s, which may write memory reachable from the caller's parameters (a shared loaded font)", core.ShortFunc(p.f), p.callee), ws...)
+		}
+	}
+	r.Count("E1.font-lib-call-pairs", len(ps))
+	r.Floor("E1.font-lib-call-pairs", 20)
+	for k := range a.extPure {
+		r.Assumed[k] = true
+	}
+}
+
+// reachesNamed reports whether values of type t can hold (directly or through pointers, slices,
+// maps, struct fields) a value of the named type pkg.name. Interfaces are opaque: they reach nothing.
+func reachesNamed(t types.Type, pkg, name string) bool {
+	seen := map[types.Type]bool{}
+	var walk func(t types.Type) bool
+	walk = func(t types.Type) bool {
+		if seen[t] {
+			return false
+		}
+		seen[t] = true
+		if n, ok := t.(*types.Named); ok && n.Obj().Pkg() != nil && n.Obj().Pkg().Path() == pkg && n.Obj().Name() == name {
+			return true
+		}
+		switch u := t.Underlying().(type) {
+		case *types.Pointer:
+			return walk(u.Elem())
+		case *types.Slice:
+			return walk(u.Elem())
+		case *types.Array:
+			return walk(u.Elem())
+		case *types.Map:
+			return walk(u.Key()) || walk(u.Elem())
+		case *types.Struct:
+			for i := 0; i < u.NumFields(); i++ {
+				if walk(u.Field(i).Type()) {
+					return true
+				}
+			}
+		}
+		return false
+	}
+	return walk(t)
+}
+
+// E1SharedArgs: C20's "goroutines sharing read-only inputs": path operations do not write their
+// non-receiver arguments (another path, a dash pattern, a matrix slice), which callers may share
+// between goroutines working on distinct receivers.
+func E1SharedArgs(c *core.Ctx, r *core.Report) {
+	r.Rule("E1.shared-args", "no exported method of *Path or Paths, nor dashCanonical/checkDash, writes memory reachable from a non-receiver argument (other paths, dash patterns): these are the inputs goroutines working on distinct paths may share; documented sinks are exempt as under C10")
+	a := newEffects(c, r)
+	var roots []*ssa.Function
+	roots = append(roots, exportedMethods(c, "Path")...)
+	roots = append(roots, exportedMethods(c, "Paths")...)
+	roots = append(roots, c.SSAFunc("", "Path.checkDash"), c.SSAFunc("", "dashCanonical"))
+	a.solve(roots)
+	n := 0
+	for _, f := range roots {
+		name := strings.TrimPrefix(strings.TrimPrefix(core.ShortFunc(f), "(*canvas."), "(canvas.")
+		name = strings.Replace(name, ").", ".", 1)
+		allowed := map[string]bool{}
+		if ex, ok := c10Exempt[name]; ok {
+			for _, pn := range ex.params {
+				allowed[pn] = true
+			}
+		}
+		var only []string
+		for i, prm := range f.Params {
+			if i == 0 && f.Signature.Recv() != nil {
+				continue
+			}
+			if hasPtr(prm.Type()) {
+				only = append(only, prm.Name())
+			}
+		}
+		if len(only) == 0 {
+			continue
+		}
+		n += len(only)
+		a.reportEffects(r, "E1.shared-args", f, allowed, "argument", only...)
+	}
+	r.Count("E1.shared-args", n)
+	r.Floor("E1.shared-args", 25)
+	for k := range a.extPure {
+		r.Assumed[k] = true
+	}
+}
